@@ -199,7 +199,7 @@ def quic_steps(draw, max_steps=12, key_updates=True, cids=True, zero_cid=False):
         elif k == 5:
             steps.append({"op": "ping", "d": d, "gap": draw(st.sampled_from(GAPS)), "pnl": draw(st.sampled_from([0, 0, 1, 2]))})
         else:
-            main = ["stream", draw(st.integers(0, 12)), draw(st.one_of(st.integers(1, 30), st.integers(1, 300))),
+            main = ["stream", draw(st.integers(0, 12)), draw(st.one_of(st.integers(1, 30), st.integers(1, 300), st.integers(1, 300), st.sampled_from([1200, 1350, 5000, 20000]))),
                     draw(st.one_of(st.none(), st.integers(0, 1 << 20))), draw(st.booleans()), draw(st.booleans()), draw(QW)]
             extra = draw(st.lists(quic_frame(), max_size=3)) if k >= 9 else []
             cut = draw(st.integers(0, len(extra)))
@@ -207,7 +207,7 @@ def quic_steps(draw, max_steps=12, key_updates=True, cids=True, zero_cid=False):
             tot, kept = 0, []
             for f in frs:            # keep the datagram below a typical MTU
                 sz = f[2] + 20 if f[0] == "stream" else {"crypto": 90, "nst": 140, "dgram": 70, "token": 50, "pad": 30}.get(f[0], 30)
-                if tot + sz <= 1150:
+                if tot + sz <= 1150 or f is main:       # a large main frame stands for a jumbo / loopback datagram
                     tot += sz
                     kept.append(f)
             pk = [{"fr": kept or [["ping"]], "gap": draw(st.sampled_from(GAPS)) if k % 2 else 0,
